@@ -46,7 +46,7 @@ class RecRandom:
 def gen_case(rng, all_atom=None):
     aa = rng.random() < 0.4 if all_atom is None else all_atom
     nf = rng.randint(1, 4)
-    labels = ['', '', 'a', 'b']
+    labels = ['', '', 'a', 'b', '1', 'A2']          # BigSMILES-style numeric labels: '$1' is label 1, order 1
     frags, descs = [], []
     for i in range(nf):
         n = rng.randint(1, 3)
@@ -80,7 +80,7 @@ def gen_case(rng, all_atom=None):
             fr[d if rng.random() < 0.7 else d.rstrip('1') or d] = {e: rng.choice([0, 0.3, 1]) for e in descs if rng.random() < 0.9}
     ter = [d for d in descs if rng.random() < 0.15]
     case = {'kind': 'sampler', 's': fs, 'all_atom': aa, 'poly': pr, 'fragr': fr, 'terminals': ter,
-            'seed': rng.randint(0, 10 ** 6),
+            'seed': rng.choice([0, rng.randint(0, 10 ** 6), rng.randint(0, 10 ** 6), rng.randint(1, 5)]),
             'target': rng.choice([1, 3, 5, 12, 50, 120]) + (0.5 if aa else 0),
             'start': rng.choice([None, None, 'F0'])}
     if not aa or rng.random() < 0.3:
@@ -217,7 +217,7 @@ def gen_case_wellformed(rng, all_atom=None):
             body = ['C' if b.startswith('c1') and j == 0 else b for j, b in enumerate(body)]
         order = rng.choice([1, 1, 1, 2]) if not aa else 1
         sym = '=' if order == 2 else ''
-        lab = {'arrow': '', 'dollar': '', 'mixed': '', 'labelled': rng.choice(['a', 'b'])}[style]
+        lab = {'arrow': '', 'dollar': '', 'mixed': '', 'labelled': rng.choice(['a', 'b', '1', 'x2'])}[style]
         if style in ('arrow', 'labelled') or (style == 'mixed' and i % 2 == 0):
             d1, d2 = '>' + lab, '<' + lab
         else:
@@ -270,7 +270,7 @@ def gen_case_wellformed(rng, all_atom=None):
         if rng.random() < 0.3:
             fr[d] = {e: rng.choice([0, 0.3, 1, 1]) for e in descs}
     case = {'kind': 'sampler', 's': '{' + ','.join(frags) + '}', 'all_atom': aa, 'poly': pr, 'fragr': fr, 'terminals': ter,
-            'seed': rng.randint(0, 10 ** 6), 'target': rng.choice([1, 3, 5, 12, 40]) + (0.5 if aa else 0),
+            'seed': rng.choice([0, rng.randint(0, 10 ** 6), rng.randint(0, 10 ** 6), rng.randint(1, 5)]), 'target': rng.choice([1, 3, 5, 12, 40]) + (0.5 if aa else 0),
             'start': rng.choice([None, None, 'F0'])}
     if not aa or rng.random() < 0.3:
         case['masses'] = {('F%d' % i): rng.choice([1, 2, 10]) for i in range(nf)}
